@@ -3,7 +3,6 @@ package sim
 import (
 	"context"
 	"errors"
-	"fmt"
 	"net"
 	"sync"
 	"time"
@@ -248,7 +247,10 @@ func (c *Conn) Write(b []byte) (int, error) {
 		}
 		err, errs = ErrHard, "hard"
 	default:
-		err, errs = fmt.Errorf("simnet: bad outcome %q", o.Kind), "bad-outcome"
+		// the stimulus names an outcome that does not apply here (model and code disagree about the
+		// connection): a plain network error is always a possible environment behaviour
+		err, errs = ErrHard, "hard"
+		c.w.Rec.Emit(Ev{"e": "diverge", "step": 0, "why": "write outcome " + o.Kind + " does not apply"})
 	}
 	got := c.c2b.Feed(b[:n])
 	tail := c.c2b.Tail()
@@ -309,7 +311,8 @@ func (c *Conn) Read(b []byte) (int, error) {
 		if k == 0 && c.eof {
 			err, errs = errEOF, "eof"
 		} else if k == 0 {
-			err, errs = timeoutErr{}, "empty"
+			err, errs = ErrHard, "hard"
+			c.w.Rec.Emit(Ev{"e": "diverge", "step": 0, "why": "read outcome " + o.Kind + " with nothing to read"})
 		}
 		n = copy(b, c.b2c[:k])
 		c.b2c = c.b2c[n:]
@@ -436,4 +439,18 @@ func (c *Conn) Established() bool {
 	c.mu.Lock()
 	defer c.mu.Unlock()
 	return c.consumed > 0
+}
+
+// dropUnconsumed ends the broker's side of an old connection: what the client wrote there is
+// not processed any more and the client reads end-of-stream.
+func (c *Conn) dropUnconsumed() {
+	c.mu.Lock()
+	c.consumed = len(c.c2b.Pkts)
+	already := c.eof
+	c.eof = true
+	c.cond.Broadcast()
+	c.mu.Unlock()
+	if !already {
+		c.w.Rec.Emit(Ev{"e": "bclose", "c": c.id})
+	}
 }
